@@ -1,8 +1,8 @@
 _CONNECT_REACH = ("dial-failed","connect-write-failed","malformed","short","refused","badflags","resend-failed","online")
-_connect = H("verifH_C18_connect", "connect() as one operation: dial result, CONNECT bytes vs reference, arbitrary 0..5-byte reply, resend, post-state", T({"cuts":0,"wfaults":1,"shapes":3}), T({"cuts":1,"wfaults":1,"shapes":3}, time_sec=1200, maxpaths=3000000), _CONNECT_REACH)
-_connect_t2 = H("verifH_C18_connect", "same, two write faults (thorough tier only)", {"skip":True}, T({"cuts":0,"wfaults":2,"shapes":3}, time_sec=1200, maxpaths=3000000), _CONNECT_REACH)
-_connect_t3 = H("verifH_C18_connect", "same, larger pending sets (thorough tier only)", {"skip":True}, T({"cuts":0,"wfaults":1,"shapes":4}, time_sec=1500, maxpaths=3000000), _CONNECT_REACH)
-_connect_light = H("verifH_C18_connect", "reconnect through the real connect(): CONNECT, arbitrary 4-byte reply, resend of the pending transfers in order and at the right stage, post-state (reduced configuration space)", {"params":{"cuts":0,"wfaults":1,"shapes":3,"light":1}}, {"params":{"cuts":0,"wfaults":2,"shapes":3,"light":1},"time_sec":1200}, ("malformed","refused","badflags","resend-failed","online"))
+_connect = H("verifH_C18_connect", "connect() as one operation: dial result, CONNECT bytes vs reference, arbitrary 0..5-byte reply, resend, post-state", T({"cuts":0,"wfaults":1,"shapes":3}), T({"cuts":1,"wfaults":1,"shapes":3}, time_sec=2400, maxpaths=3000000), _CONNECT_REACH)
+_connect_t2 = H("verifH_C18_connect", "same, two write faults (thorough tier only)", {"skip":True}, T({"cuts":0,"wfaults":2,"shapes":3}, time_sec=2400, maxpaths=3000000), _CONNECT_REACH)
+_connect_t3 = H("verifH_C18_connect", "same, larger pending sets (thorough tier only)", {"skip":True}, T({"cuts":0,"wfaults":1,"shapes":4}, time_sec=3000, maxpaths=3000000), _CONNECT_REACH)
+_connect_light = H("verifH_C18_connect", "reconnect through the real connect(): CONNECT, arbitrary 4-byte reply, resend of the pending transfers in order and at the right stage, post-state (reduced configuration space)", {"params":{"cuts":0,"wfaults":1,"shapes":3,"light":1,"second":0}}, {"params":{"cuts":0,"wfaults":2,"shapes":3,"light":1,"second":0},"time_sec":1200}, ("malformed","refused","badflags","resend-failed","online"))
 _accept_light = H("verifH_C01_accept", "accept from an arbitrary INV state (at most one write fault)", {"params":{"W":1,"wfaults":1,"storefaults":1}}, {"params":{"W":2,"wfaults":1,"storefaults":1},"time_sec":1500}, ("refused-max","save-failed","enqueued-offline","written","write-broke"))
 _compose = H("verifH_C01_compose", "bounded composition from the real initial state (InitSession): k operations out of {publish QoS1/2, connection loss, real connect+resend, PUBACK, PUBREC, PUBCOMP}, optional restart (AdoptSession), then observe + drain against the shadow model", T({"steps":4}), T({"steps":6}, time_sec=3000, maxpaths=5000000), ("end","restarted"))
 S["C01"] = dict(title="Accepted QoS>=1 publishes are retransmitted until acknowledged, never lost", technique=TECH+"; one operation from an arbitrary representation-invariant state (ring position free), observed through resend", harnesses=[
